@@ -43,6 +43,40 @@ func (fr *Frame) lockOblige(kind, what string, pos token.Pos, cond Term) {
 	fr.vc.oblige(kind, name, p, src, fr.reach, cond, fr.vc.lockProps())
 }
 
+// condLockedDecl: v is the condition variable read from a field declared `condlocked` for the running property.
+func (fr *Frame) condLockedDecl(v ssa.Value) *GuardDecl {
+	_, n, field := fr.fieldOf(v)
+	if n == nil || n.Obj().Pkg() == nil {
+		return nil
+	}
+	pc := fr.vc.eng.contracts[n.Obj().Pkg().Path()]
+	if pc == nil {
+		return nil
+	}
+	for _, g := range pc.CondLocked {
+		if g.Type == n.Obj().Name() && g.Mutex == field && hasProp(g.Props, fr.vc.prop) {
+			for _, ex := range g.Fields {
+				if nm := relFuncName(fr.vc.fn); nm == ex || strings.HasPrefix(nm, ex+"$") {
+					return nil
+				}
+			}
+			return g
+		}
+	}
+	return nil
+}
+
+// condOblige: a wake-up of a `condlocked` condition variable happens with its lock held.
+func (fr *Frame) condOblige(g *GuardDecl, what string, pos token.Pos, cond Term) {
+	p := fr.pos(pos)
+	src := fr.vc.eng.srcLine(p)
+	name := fmt.Sprintf("%s/cond.signal-unlocked@%s.%s:%s#%s", relFuncName(fr.vc.fn), g.Type, g.Mutex, what, hash4(src))
+	if fr.fn != fr.vc.fn {
+		name = fmt.Sprintf("%s/cond.signal-unlocked@%s:%s.%s:%s#%s", relFuncName(fr.vc.fn), relFuncName(fr.fn), g.Type, g.Mutex, what, hash4(src))
+	}
+	fr.vc.oblige("cond.signal-unlocked", name, p, src, fr.reach, cond, g.Props)
+}
+
 func (fr *Frame) doLock(id Term, pos token.Pos) {
 	vc := fr.vc
 	fr.lockOblige("lock.relock", "Lock", pos, and(eq(sel(fr.lockW(), id), "0"), eq(sel(fr.lockR(), id), "0")))
@@ -154,7 +188,24 @@ func init() {
 		fr.onCondWait(id, pos)
 		return nil
 	}
-	S["(*sync.Cond).Broadcast"] = func(fr *Frame, c *ssa.CallCommon, a []*Val, av []ssa.Value, pos token.Pos) *Val { return nil }
+	S["(*sync.Cond).Broadcast"] = func(fr *Frame, c *ssa.CallCommon, a []*Val, av []ssa.Value, pos token.Pos) *Val {
+		if g := fr.condLockedDecl(av[0]); g != nil {
+			U := fr.U()
+			ft := a[0].Typ.Underlying().(*types.Pointer).Elem()
+			st := ft.Underlying().(*types.Struct)
+			li := -1
+			for i := 0; i < st.NumFields(); i++ {
+				if st.Field(i).Name() == "L" {
+					li = i
+				}
+			}
+			hn := fieldHeapName(ft, li)
+			l := sel(fr.vc.heap(fr.st, hn, arrSort(SInt, U.sortOf(st.Field(li).Type()))), a[0].T)
+			id := sx("ival", l)
+			fr.condOblige(g, "call", pos, or(eq(sel(fr.lockW(), id), "1"), sx(">=", sel(fr.lockR(), id), "1")))
+		}
+		return nil
+	}
 	S["(*sync.Cond).Signal"] = S["(*sync.Cond).Broadcast"]
 	S["sync.NewCond"] = func(fr *Frame, c *ssa.CallCommon, a []*Val, av []ssa.Value, pos token.Pos) *Val {
 		U := fr.U()
